@@ -1135,6 +1135,56 @@ def rule_literal_base(chk, prog, tier):
     r.exhaustive = False
 
 
+# ------------------------------------------------------------------ C05.l indirection
+
+def rule_indirection(chk, prog, tier):
+    r = chk.rule('C05.l', 'unary * applied to a pointer yields an lvalue of the pointed-to type - also when the pointer is an array, string literal, compound literal or function that has just decayed, or &x: '
+                 'the node built has that type, and a node that keeps its kind keeps a type its consumers can handle (a string literal node stays an array)',
+                 floor=8, oracle='C11 6.5.3.2p4, 6.3.2.1p3')
+    fn = prog.require_func('mkunaryexpr', 'expr.c')
+    dc = prog.require_func('decay', 'expr.c')
+    for kind in ('pointer', 'array-ident', 'string', 'wide-string', 'compound-array', 'addr-of-int', 'function', 'member-array'):
+        def runner(it):
+            w = World(prog, it=it, target='x86_64-sysv')
+            it.models.update({'xmalloc': lambda i2, a, e: Ptr(Obj('heap@%s' % e.get('line'), 'heap'), ()), 'free': lambda i2, a, e: None,
+                              'error': lambda i2, a, e: (_ for _ in ()).throw(Terminal('error', cmodel.fmt_of(i2, a, 1))),
+                              'fatal': lambda i2, a, e: (_ for _ in ()).throw(Terminal('fatal', cmodel.fmt_of(i2, a, 0)))})
+            I = w.t('int'); C = w.t('char')
+            if kind == 'pointer': base = w.mkexpr('EXPRIDENT', w.mkptr(I)); base.obj.f[('lvalue',)] = 1; want = I
+            elif kind == 'array-ident':
+                a = w.mkexpr('EXPRIDENT', it.call('mkarraytype', [I, 0, 3])); a.obj.f[('lvalue',)] = 1; base = it.call(dc, [a]); want = I
+            elif kind in ('string', 'wide-string'):
+                et = C if kind == 'string' else I
+                sx = w.mkexpr('EXPRSTRING', it.call('mkarraytype', [et, 0, 3]), None, u__string__size=3); sx.obj.f[('lvalue',)] = 1; base = it.call(dc, [sx]); want = et
+            elif kind == 'compound-array':
+                a = w.mkexpr('EXPRCOMPOUND', it.call('mkarraytype', [I, 0, 2])); a.obj.f[('lvalue',)] = 1; base = it.call(dc, [a]); want = I
+            elif kind == 'addr-of-int':
+                x = w.mkexpr('EXPRIDENT', I); x.obj.f[('lvalue',)] = 1; base = it.call(fn, [ev(prog, 'TBAND'), x]); want = I
+            elif kind == 'function':
+                ft = it.call('mktype', [ev(prog, 'TYPEFUNC'), 0]); ft.obj.f.update({('base',): I, ('qual',): 0, ('size',): 0, ('align',): 0, ('incomplete',): 0})
+                x = w.mkexpr('EXPRIDENT', ft); base = it.call(dc, [x]); want = ft
+            else:
+                st_ = w.mkstruct(size=12, align=4)
+                m = w.mkexpr('EXPRUNARY', it.call('mkarraytype', [I, 0, 3]), w.mkexpr('EXPRIDENT', w.mkptr(st_)), op=ev(prog, 'TMUL')); m.obj.f[('lvalue',)] = 1; base = it.call(dc, [m]); want = I
+            e = it.call(fn, [ev(prog, 'TMUL'), base])
+            if kind == 'function':
+                # *f is a function designator, which decays again to a pointer to the function
+                t_ = it.load(e.obj, ('type',)); ok = it.load(t_.obj, ('kind',)) == ev(prog, 'TYPEPOINTER') and it.load(t_.obj, ('base',)).obj is want.obj
+                return ok, 'ptr-to-function', None
+            k = it.load(e.obj, ('kind',)); t_ = it.load(e.obj, ('type',))
+            tk = it.load(t_.obj, t_.path + ('kind',))
+            problem = None
+            if k == ev(prog, 'EXPRSTRING') and tk != ev(prog, 'TYPEARRAY'): problem = 'a string literal node was given the scalar type of its element: its consumers index the element type through the array type'
+            return t_.obj is want.obj, cmodel.name_of(prog, 'exprkind', k), problem
+        runs = explore(prog, runner, {}, max_runs=4, on_unsupported='keep')
+        key = 'indirection:*%s' % kind
+        if len(runs) != 1 or runs[0].outcome != 'return':
+            raise AnalysisBroken('%s: %s' % (key, [(x.outcome, x.detail) for x in runs][:2]))
+        okty, k, problem = runs[0].value
+        r.instance(okty and problem is None, key, 'expr.c:mkunaryexpr', problem or ('result type is %sthe pointed-to type; node kind %s' % ('' if okty else 'not ', k)))
+    r.exhaustive = False
+
+
 def run(chk, tier):
     prog = facts.programs()['cproc-qbe']
     chk.guard('C05.a', lambda: rule_promote(chk, prog, tier))
@@ -1146,6 +1196,7 @@ def run(chk, tier):
     chk.guard('C05.i', lambda: rule_specifiers(chk, prog, tier))
     chk.guard('C05.e', lambda: rule_compat(chk, prog, tier))
     chk.guard('C05.k', lambda: rule_generic(chk, prog, tier))
+    chk.guard('C05.l', lambda: rule_indirection(chk, prog, tier))
     from props import c05j
     chk.guard('C05.j', lambda: c05j.rule_exprtypes(chk, prog, tier))
     chk.guard('C05.d', lambda: rule_literals(chk, prog, tier))
